@@ -210,7 +210,8 @@ pub fn cache_under_witness_faults(tier: Tier) -> CaseOut {
         let n = hooks::calls();
         hooks::clear();
         for i in 0..n {
-            for k in [Fault::Perturbed(1e-6), Fault::Perturbed(1e-3), Fault::FarOff(1e3), Fault::FarOff(-100.0), Fault::FarOff(3.0), Fault::FarOff(f64::NAN)] {
+            // Unbounded leaves a node in the state Feasible (no witness) above the nodes processed next
+            for k in [Fault::Perturbed(1e-6), Fault::Perturbed(1e-3), Fault::FarOff(1e3), Fault::FarOff(-100.0), Fault::FarOff(3.0), Fault::FarOff(f64::NAN), Fault::Unbounded] {
                 let mut t = pr.before.clone();
                 hooks::set_plan(vec![(i, k.clone())]);
                 let res = pr.last.run(&mut t, pr.d);
